@@ -1,6 +1,6 @@
 CONSTANTS
   Rotations = {0}
-  Width = 1
+  Widths = {1}
   TransportSets = {{"grpc"}, {"rest"}, {"grpc", "rest"}}
   Namings = {"plain"}
   NSvcs = {2}
